@@ -10,6 +10,8 @@ import (
 	"testing"
 	"time"
 
+	"github.com/slackhq/nebula/cert"
+	"github.com/slackhq/nebula/handshake"
 	"github.com/slackhq/nebula/header"
 	"pgregory.net/rapid"
 	"verifkit/vk"
@@ -70,6 +72,8 @@ func TestC10_ReplayedHandshakes(t *testing.T) {
 			w.pid = "C10"
 			h := &nsHist{rt: rt, w: w, delivered: map[int]map[int]bool{}, stats: map[string]int{}}
 			w.startAll(rt)
+			ghostIdx, ghostCS := w.addGhost(rt)
+			clashes := 0
 			firstSeen := map[string]time.Time{} // stage-1 bytes -> virtual creation time
 			noteStage1 := func() {
 				s.mu.Lock()
@@ -86,8 +90,57 @@ func TestC10_ReplayedHandshakes(t *testing.T) {
 			maxTunnels := 0
 			nsteps := rapid.IntRange(10, 70).Draw(rt, "nsteps")
 			for step := 0; step < nsteps; step++ {
-				op := rapid.SampledFrom([]string{"tun", "tun", "flush", "flush", "flush", "deliver", "drop", "advance", "rehandshake", "rehandshake", "rehandshake", "close", "replay1", "replay1", "replay1", "replay1"}).Draw(rt, "op")
+				op := rapid.SampledFrom([]string{"tun", "tun", "flush", "flush", "flush", "deliver", "drop", "advance", "rehandshake", "rehandshake", "rehandshake", "close", "replay1", "replay1", "replay1", "replay1", "indexClash"}).Draw(rt, "op")
 				switch op {
+				case "indexClash":
+					// Tunnel indexes are chosen by each initiator on its own: another (honest, accepted) peer
+					// may well come up with the very index an earlier peer used towards the same responder.
+					// The harness plays such a peer and completes a handshake as initiator under the
+					// initiator index of a tunnel the responder still holds.
+					s.mu.Lock()
+					var cands []*nsPacket
+					for _, p := range s.history {
+						if hd, ok := nsHeaderOf(p.Data); ok && hd.Type == header.Handshake && hd.MessageCounter == 1 && p.Src >= 0 {
+							cands = append(cands, p)
+						}
+					}
+					s.mu.Unlock()
+					if len(cands) == 0 {
+						continue
+					}
+					p := cands[rapid.IntRange(0, len(cands)-1).Draw(rt, "clash.idx")]
+					x := s.nodeByUDP(p.To)
+					if x == nil || !x.started {
+						continue
+					}
+					var held *HostInfo
+					for _, t := range x.allTunnels() {
+						if bytes.Equal(t.HandshakePacket[handshakePacketStage0], p.Data[header.Len:]) {
+							held = t
+						}
+					}
+					if held == nil {
+						continue
+					}
+					idx := held.remoteIndexId
+					gm, err := handshake.NewMachine(cert.Version2, ghostCS.GetCredential,
+						func(c cert.Certificate) (*cert.CachedCertificate, error) {
+							fp, _ := c.Fingerprint()
+							return &cert.CachedCertificate{Certificate: c, Fingerprint: fp}, nil
+						},
+						func() (uint32, error) { return idx, nil }, true, header.HandshakeIXPSK0)
+					if err != nil {
+						rt.Fatalf("harness: ghost machine: %v", err)
+					}
+					m1, err := gm.Initiate(nil)
+					if err != nil {
+						rt.Fatalf("harness: ghost initiate: %v", err)
+					}
+					h.note("ghost peer handshakes with %s under initiator index %d (the index of %v)", x.name, idx, p)
+					s.deliver(&nsPacket{ID: -1, From: w.specs[ghostIdx].udp, To: p.To, Data: m1, Src: -1})
+					s.settle()
+					clashes++
+					vk.Label("C10", "another-peer-reuses-an-initiator-index")
 				case "advance":
 					d := rapid.SampledFrom([]time.Duration{0, time.Nanosecond, time.Millisecond, 100 * time.Millisecond, time.Second, 3 * time.Second}).Draw(rt, "d")
 					if d > 0 {
@@ -161,7 +214,7 @@ func TestC10_ReplayedHandshakes(t *testing.T) {
 						var orig []byte
 						s.mu.Lock()
 						for _, q := range s.history[:histBefore] {
-							if qh, ok := nsHeaderOf(q.Data); ok && q.Src == x.idx && qh.Type == header.Handshake && qh.MessageCounter == 2 && qh.RemoteIndex == held.remoteIndexId {
+							if qh, ok := nsHeaderOf(q.Data); ok && q.Src == x.idx && qh.Type == header.Handshake && qh.MessageCounter == 2 && qh.RemoteIndex == held.remoteIndexId && q.To != w.specs[ghostIdx].udp {
 								// the most recent one belongs to the tunnel still held: an older reply with the same
 								// initiator index comes from a tunnel that was torn down and re-created from the same
 								// first message, and later copies are byte-identical resends (checked below)
